@@ -33,6 +33,14 @@ CHECKS["C05"] = ("exploration",
     "same quantile to 1e-12 on train and fresh data.",
     "DESIGN.md §3 C05")
 
+CHECKS["C11"] = ("exploration",
+    "runtime monitor: symbolic shadow exponent matrix driven by the recorded multiply() calls of the real block "
+    "recurrence, compared with PolynomialFeatures.powers_; numeric differential on hostile inputs; names parsed back",
+    "The recurrence is data independent, so the shadow-state monitor decides a configuration for every X in one "
+    "run; all configurations of the box are enumerated (exhaustive for that box), both kinds are also compared "
+    "numerically with PolynomialFeatures on 8 input classes.",
+    "DESIGN.md §3 C11")
+
 PENDING = {}
 
 
